@@ -64,12 +64,15 @@ func runC09(c *Ctx) {
 		}
 		key := "ok-return|" + fnKey(validate)
 		at := p.End()
+		// every operand is resolved through inlined helper frames (a helper extracted from Validate takes the
+		// expiration and the timestamp as parameters)
+		isExp := func(v ssa.Value, ctx walk.DV) bool { return p.Resolve(p.Op(v, ctx)).V == ssa.Value(expParam) }
 		// unlimited lifetime configured
 		zero := false
 		for _, a := range p.Atoms(at) {
 			if b, ok := a.DV.V.(*ssa.BinOp); ok && !a.IsNil && a.Val && (b.Op == token.EQL || b.Op == token.NEQ) {
 				for _, pair := range [][2]ssa.Value{{b.X, b.Y}, {b.Y, b.X}} {
-					if n, ok := ConstInt(pair[1]); ok && n == 0 && pair[0] == expParam {
+					if n, ok := ConstInt(pair[1]); ok && n == 0 && isExp(pair[0], a.DV) {
 						zero = true
 					}
 				}
@@ -98,26 +101,30 @@ func runC09(c *Ctx) {
 		}
 		// t: time.Unix(int64(Atoi(parts[1])), 0)
 		tOK := func(dv walk.DV) bool {
-			u, ok := p.Resolve(dv).V.(*ssa.Call)
+			r := p.Resolve(dv)
+			u, ok := r.V.(*ssa.Call)
 			if !ok || !isStd(&u.Call, "time", "Unix") {
 				return false
 			}
 			if n, ok := ConstInt(u.Call.Args[1]); !ok || n != 0 {
 				return false
 			}
-			cv, ok := u.Call.Args[0].(*ssa.Convert)
+			cvr := p.Resolve(p.Op(u.Call.Args[0], r))
+			cv, ok := cvr.V.(*ssa.Convert)
 			if !ok {
 				return false
 			}
-			ex, ok := cv.X.(*ssa.Extract)
+			exr := p.Resolve(p.Op(cv.X, cvr))
+			ex, ok := exr.V.(*ssa.Extract)
 			if !ok || ex.Index != 0 {
 				return false
 			}
-			atoi, ok := ex.Tuple.(*ssa.Call)
+			atr := p.Resolve(p.Op(ex.Tuple, exr))
+			atoi, ok := atr.V.(*ssa.Call)
 			if !ok || !isStd(&atoi.Call, "strconv", "Atoi") {
 				return false
 			}
-			idx, ok := indexLoad(atoi.Call.Args[0])
+			idx, ok := indexLoad(p.Resolve(p.Op(atoi.Call.Args[0], atr)).V)
 			return ok && idx == 1
 		}
 		if !tOK(p.Recv(*after)) || !tOK(p.Recv(*before)) {
@@ -125,16 +132,17 @@ func runC09(c *Ctx) {
 			return
 		}
 		// operands: now.Add(d) with now = time.Now()
-		bound := func(dv walk.DV) (d ssa.Value, ok bool) {
-			add, ok := p.Resolve(dv).V.(*ssa.Call)
+		bound := func(dv walk.DV) (d walk.DV, ok bool) {
+			r := p.Resolve(dv)
+			add, ok := r.V.(*ssa.Call)
 			if !ok || !isTimeMethod(&add.Call, "Add") {
-				return nil, false
+				return walk.DV{}, false
 			}
-			now, ok := add.Call.Args[0].(*ssa.Call)
+			now, ok := p.Resolve(p.Op(add.Call.Args[0], r)).V.(*ssa.Call)
 			if !ok || !isStd(&now.Call, "time", "Now") {
-				return nil, false
+				return walk.DV{}, false
 			}
-			return add.Call.Args[1], true
+			return p.Resolve(p.Op(add.Call.Args[1], r)), true
 		}
 		lo, ok1 := bound(p.Arg(*after, 1))
 		hi, ok2 := bound(p.Arg(*before, 1))
@@ -143,22 +151,22 @@ func runC09(c *Ctx) {
 			return
 		}
 		negExp := false
-		switch x := lo.(type) {
+		switch x := lo.V.(type) {
 		case *ssa.BinOp:
 			if x.Op == token.MUL {
 				for _, pair := range [][2]ssa.Value{{x.X, x.Y}, {x.Y, x.X}} {
-					if n, ok := ConstInt(pair[1]); ok && n == -1 && pair[0] == expParam {
+					if n, ok := ConstInt(pair[1]); ok && n == -1 && isExp(pair[0], lo) {
 						negExp = true
 					}
 				}
 			}
 			if x.Op == token.SUB {
-				if n, ok := ConstInt(x.X); ok && n == 0 && x.Y == expParam {
+				if n, ok := ConstInt(x.X); ok && n == 0 && isExp(x.Y, lo) {
 					negExp = true
 				}
 			}
 		case *ssa.UnOp:
-			if x.Op == token.SUB && x.X == expParam {
+			if x.Op == token.SUB && isExp(x.X, lo) {
 				negExp = true
 			}
 		}
@@ -166,7 +174,7 @@ func runC09(c *Ctx) {
 			c.bad(rule, key, p.Exit, "the lower bound of the validity window is not now - expiration (exactly the expiration argument)", p, at)
 			return
 		}
-		if n, ok := ConstInt(hi); !ok || n != int64(5*60*1e9) {
+		if n, ok := ConstInt(hi.V); !ok || n != int64(5*60*1e9) {
 			c.bad(rule, key, p.Exit, "the upper bound of the validity window is not now + 5 minutes", p, at)
 			return
 		}
